@@ -951,6 +951,8 @@ func runC09(c *Ctx) {
 	ruleLeafCommonName(c, "R09.c")
 	ruleAcceptLoops(c, "R09.d")
 	ruleGoroutineOwnsItsIteration(c, "R09.d")
+	// a failed handshake leaves nothing behind: not even a reserved client slot
+	ruleAdmissionBalanced(c, "R09.h")
 	ruleOwnListenerOnly(c, "R09.e")
 	ruleAuthenticatorListOwnership(c, "R09.f")
 	// a certificate rule's refusal must not be overridden by a later authenticator's acceptance
